@@ -126,12 +126,20 @@ def pubsub_scripts(ctx, rng):
         {"trust": {"a": T(True), "b": T(False), "c": T(False, "b"), "d": T(False, "a")},
          "events": [P("c"), P("b"), P("a"), TR("b", "c"), P("c")]},
     ]
-    # c reaches a only through the plain gossipsub relay d, which a trusts (d signs nothing and trusts
-    # nobody): the validator must look at the signer c, not at the forwarding peer d. The later direct
-    # link lets a fetch c's DAG if it (wrongly) accepted the forwarded head.
-    scripts.append({"trust": {"a": T(False, "d"), "b": T(True), "c": T(True), "d": T(False)},
-                    "relay": ["d"], "links": [["c", "d"], ["d", "a"], ["b", "c"]],
-                    "events": [P("c"), {"ev": "link", "r": "a", "p": "c"}, P("c"), P("a"), TR("a", "c")]})
+    # Relayed delivery, chain c - b - a; a and c can never connect (connection gaters), so whatever c
+    # signs reaches a forwarded by b. b is a real replica that accepts c (so gossipsub forwards) and is
+    # "quiet": its own heads go out only when it publishes. The validator must judge the SIGNER:
+    # (1) a trusts only b: c's head forwarded by trusted b must be refused; a learns c's update only
+    #     inside the head b signs when b publishes itself.
+    scripts.append({"trust": {"a": T(False, "b"), "b": T(False, "c"), "c": T(True)},
+                    "links": [["c", "b"], ["b", "a"]], "block": [["a", "c"]], "quiet": ["b"],
+                    "events": [P("c"), P("b")], "complete": True,
+                    "must_see": [{"r": "b", "s": "c", "after": 0}]})
+    # (2) symmetric: a trusts only c: c's head forwarded by the untrusted b must be accepted.
+    scripts.append({"trust": {"a": T(False, "c"), "b": T(True), "c": T(True)},
+                    "links": [["c", "b"], ["b", "a"]], "block": [["a", "c"]], "quiet": ["b", "c"],
+                    "events": [P("c"), P("b")], "complete": True,
+                    "must_see": [{"r": "b", "s": "c", "after": 0}]})
     reps = ["a", "b", "c", "d"]
     for _ in range(1 if ctx.quick() else 20):
         tr = {}
@@ -272,6 +280,35 @@ def pubsub_stage(ctx, scripts, tag="ps"):
                       "replica %s holds pins %s although some signer is outside its (transitive) trust" % (
                           l["r"], json.dumps(l["pins"])),
                       {"kind": "pubsub", "script": by_id[owner[i - 1]], "line": i, "observed": l})
+    for i in v["badsigner"]:
+        if i in v["bad"]:
+            continue
+        l = lines[i - 1]
+        ctx.violation("C07:pubsub:update-accepted-from-untrusted-signer",
+                      "replica %s holds pins %s, more than the heads signed by peers it trusted can have carried" % (
+                          l["r"], json.dumps(l["pins"])),
+                      {"kind": "pubsub", "script": by_id[owner[i - 1]], "line": i, "observed": l})
+    anybad = bool(v["bad"] or v["badsigner"])
+    # per-script expectations: relayed delivery really happened (else vacuous), final pinsets complete (else drift)
+    obs_of = {}
+    for i, l in enumerate(lines):
+        if l["ev"] == "observe":
+            obs_of.setdefault(owner[i], []).append((i + 1, l))
+    short = set(v["short"])
+    incomplete = []
+    for sc in scripts:
+        obs = obs_of.get(sc["id"], [])
+        nrep = len([x for x in sc["trust"] if x not in sc.get("relay", [])])
+        for ms in sc.get("must_see", []):
+            rounds = obs[ms["after"] * nrep:(ms["after"] + 1) * nrep]
+            if not any(l["r"] == ms["r"] and any(u["s"] == ms["s"] for u in l["pins"]) for _, l in rounds):
+                raise vcheck.Infra("vacuous relay scenario (script %d): %s did not receive the update of %s" % (
+                    sc["id"], ms["r"], ms["s"]))
+        if sc.get("complete"):
+            for i, l in obs[-nrep:]:
+                if i in short and i not in v["badsigner"]:
+                    incomplete.append("script %d: final pinset of %s is %s, complete delivery under the "
+                                      "signer-based validator gives more" % (sc["id"], l["r"], json.dumps(l["pins"])))
     accepted = bool(r.violation and "NotDone" in r.violation)
     drift = []
     if accepted:
@@ -279,12 +316,13 @@ def pubsub_stage(ctx, scripts, tag="ps"):
         ctx.model_runs.append({"module": "RPCAuthPubsubTrace.tla", "cfg": "RPCAuthPubsubTrace.cfg",
                                "distinct": r.distinct, "generated": r.generated, "trace_lines": len(lines),
                                "wall_s": round(r.wall, 1)})
-    elif not v["bad"]:
+    elif not anybad:
         import re
         m = re.search(r'TRACE-REJECT line", (\d+)', r.out)
         ln = int(m.group(1)) if m else 0
         drift.append("pubsub trace not explained by RPCAuthPubsub at line %d: %s" % (
             ln, json.dumps(lines[ln - 1]) if 0 < ln <= len(lines) else "?"))
+    drift += incomplete
     ctx.extra["pubsub_observations_judged_by_tlc"] = v["observes"]
     # vacuity guard: "untrusted updates are ignored" means nothing if no broadcast is ever accepted
     foreign = sum(1 for l in lines if l["ev"] == "observe" and any(u["s"] != l["r"] for u in l["pins"]))
